@@ -19,7 +19,7 @@ PROPS = {
         ],
     },
     "C04": {
-        "lean_modules": ["DocsModel.Props.C04", "DocsModel.Props.C04Link", "DocsModel.Props.Live", "DocsModel.Props.LiveGossip", "DocsModel.Props.C04Gossip"],
+        "lean_modules": ["DocsModel.Props.C04", "DocsModel.Props.C04Link", "DocsModel.Props.Live", "DocsModel.Props.LiveGossip", "DocsModel.Props.C04Gossip", "DocsModel.Props.C04Deliver"],
         "trusted_base": COMMON_TRUST + [
             "live-actor component (harness/src/live.rs, Model/Live.lean, Props/Live.lean, hook H9): one real live actor whose loop does not run; every handler the loop dispatches to (start_sync, leave, Subscribe, NeighborUp/Down, on_replica_event, start_download, on_download_ready, on_neighbor_content_ready, on_sync_report, accept_sync_request, sync_with_peer, the three completion handlers) is called by the harness and compared after every call with the model: dials, gossip messages handed to an active topic, requests handed to the downloader, events per subscriber, replies, and the whole book-keeping (documents, topics, both maps of the download queue, missing hashes, providers, every slot, the useful peers in the store); each property compares the fields it is about; gossip delivery, the downloader and the task futures are played by the harness",
             "redb tables are modelled as sorted lists whose range() is the in-order filter by the bounds; redb itself is not verified",
